@@ -245,9 +245,9 @@ EXPLORER_ASSUME = [
 CHECKS["C18"] = dict(
     level="exploration",
     technique="differential monitor over HTTP: every inscription, unspent output, rune, address, block and inscribed sat of generated index states is requested from the in-process explorer (JSON and recursive routes, all pages, positive and negative indices) and compared with the stored tables (hook H2) and the chain's transactions",
-    level_text="Exploration over index states x objects x routes: ~10^2 states per quick run (30-70 blocks; 60-160 thorough) containing unbound, lost and burned inscriptions, reinscriptions, parents/children, runes, and bulk reveals of 99-203 envelopes under one parent on one sat in one block (page boundaries at 100 and 200); ~10^5 requests per run. Routes: /inscription/<id|number>, /r/inscription, /output, /r/utxo, POST /outputs, /inscriptions/block/<h>[/<page>], /r/children[/<page>], /r/children/.../inscriptions, /r/parents..., /r/sat/<n>[/<page>], /r/sat/<n>/at/<+-i>, /sat/<n>, /rune/<name|id>, /address, /block/<h>, /r/blockhash/<h>, /r/blockheight, /inscriptions[/<page>] (newest first), /status, /tx/<txid>, /r/tx/<txid>, /r/metadata/<id>.",
+    level_text="Exploration over index states x objects x routes: ~10^2 states per quick run (30-70 blocks; 60-160 thorough) containing unbound, lost and burned inscriptions, reinscriptions, parents/children, runes, and bulk reveals of 99-203 envelopes under one parent on one sat in one block (page boundaries at 100 and 200); a third of the states index inscriptions and runes only from height 4-14 on (hook H5), as mainnet, signet and testnet do; ~10^5 requests per run. Routes: /inscription/<id|number>, /r/inscription, /output, /r/utxo, POST /outputs, /inscriptions/block/<h>[/<page>], /r/children[/<page>], /r/children/.../inscriptions, /r/parents..., /r/sat/<n>[/<page>], /r/sat/<n>/at/<+-i>, /sat/<n>, /rune/<name|id>, /address, /block/<h>, /r/blockhash/<h>, /r/blockheight, /inscriptions[/<page>] (newest first), /status, /tx/<txid>, /r/tx/<txid>, /r/metadata/<id>.",
     rule="state = generated chain (transfers, reveals incl. zero-value inputs / fee-spent / OP_RETURN destinations, rune transactions, bulk reveals) under a random subset of the optional indexes; for each object the served JSON is deserialised into ord::api types and compared field by field with the stored entry / satpoint / children / sat tables, UTXO entries, rune balances and the creating transaction's output. Listings: concatenation of all pages = stored order, page size 100, `more` flag exact, empty page after the last; negative indices count back from the newest. distinct = (index configuration, state size class, bulk sizes).",
-    floors={"evaluations": 10000, "states": 20, "inscription_json_ok": 5000, "r_inscription_json_ok": 5000, "inscriptions_lost": 100, "inscriptions_unbound": 100, "inscriptions_burned": 50, "outputs_ok": 1000, "outputs_with_inscriptions_ok": 200, "block_listings_ok": 200, "block_listings_over_one_page_ok": 5, "children_listings_ok": 200, "children_listings_over_one_page_ok": 5, "parent_listings_ok": 200, "sat_listings_ok": 100, "sat_listings_over_one_page_ok": 3, "runes_ok": 50, "addresses_ok": 50, "latest_listing_ok": 20, "status_ok": 20, "transactions_ok": 300},
+    floors={"evaluations": 10000, "states": 20, "inscription_json_ok": 5000, "r_inscription_json_ok": 5000, "inscriptions_lost": 100, "inscriptions_unbound": 100, "inscriptions_burned": 50, "outputs_ok": 1000, "outputs_with_inscriptions_ok": 200, "block_listings_ok": 200, "block_listings_over_one_page_ok": 5, "children_listings_ok": 200, "children_listings_over_one_page_ok": 5, "parent_listings_ok": 200, "sat_listings_ok": 100, "sat_listings_over_one_page_ok": 3, "runes_ok": 50, "addresses_ok": 50, "latest_listing_ok": 20, "status_ok": 20, "transactions_ok": 300, "states_with_late_first_inscription_height": 5},
     shards_quick=16, budget_quick=45, shards_thorough=16, budget_thorough=480, release_pass=False, miri=False,
     assumptions=EXPLORER_ASSUME, crash_is_violation=True)
 
